@@ -201,6 +201,10 @@ def hashseed(case, res):
     fixed = [
         "q = MySQLQuery.from_(T('t')).select('a').for_update(of=('t', 'u', 'v', 'w', 'x'))",
         "q = PostgreSQLQuery.from_(T('t')).select('a').for_update(of=('alpha', 'beta', 'gamma', 'delta'))",
+        # derived statements: what replace_table / a builder copy makes of ordered name lists
+        "q = PostgreSQLQuery.from_(T('alpha')).select('a').for_update(of=('alpha', 'beta', 'gamma', 'delta')).replace_table(T('alpha'), T('omega'))",
+        "q = MySQLQuery.from_(T('t')).select('a').for_update(of=('t', 'u', 'v', 'w', 'x')).replace_table(T('t'), T('tt')).limit(3)",
+        "q = ClickHouseQuery.from_(T('t')).select('a').limit_by(2, 'e', 'd', 'c', 'b').distinct_on('k3', 'k2', 'k1').replace_table(T('t'), T('tt'))",
         "q = Query.from_(T('t')).select(T('t').star, T('u').star, T('v').star).join(T('u')).on(T('t').a == T('u').a).join(T('v')).on(T('t').a == T('v').a)",
         "q = Query.from_(T('t')).select('a').where(F('a').isin([3, 1, 2])).where(F('b').isin(('x', 'y')))",
         "q = PostgreSQLQuery.update(T('t')).set('a', 1).returning('a', 'b', T('t').c)",
